@@ -11,6 +11,9 @@ import (
 	"reflect"
 	"strings"
 	"sync"
+	"sync/atomic"
+	"time"
+	"unsafe"
 
 	"github.com/tmpim/casket/casketfile"
 	"github.com/tmpim/casket/caskethttp/proxy"
@@ -33,6 +36,29 @@ type c05In struct {
 	Failing []bool    `json:"failing,omitempty"` // retry: backend fails every forward
 	Chunked bool      `json:"chunked,omitempty"`
 	BodyLen int       `json:"bodylen,omitempty"`
+	RT      *c05RT    `json:"rt,omitempty"` // kind retryt: timed retry loop (c05_retry.go)
+	Robin   uint32    `json:"robin,omitempty"` // kind rrseq: value the RoundRobin counter is set to
+	M       int       `json:"m,omitempty"`     // kind rrseq: number of consecutive Selects
+}
+
+// setRobin sets the unexported uint32 counter of a RoundRobin policy (4 * 10^9 Selects are not replayed)
+func setRobin(rr *proxy.RoundRobin, v uint32) {
+	f := reflect.ValueOf(rr).Elem().FieldByName("robin")
+	*(*uint32)(unsafe.Pointer(f.UnsafeAddr())) = v
+}
+
+// c05AbortUp is the parsed upstream with an emergency exit: once abort is set the next Select panics
+// out of a retry loop that does not end
+type c05AbortUp struct {
+	proxy.Upstream
+	abort *int32
+}
+
+func (u *c05AbortUp) Select(r *http.Request) *proxy.UpstreamHost {
+	if atomic.LoadInt32(u.abort) != 0 {
+		panic(c05Abort{})
+	}
+	return u.Upstream.Select(r)
 }
 
 func fnv32a(s string) uint32 {
@@ -94,6 +120,44 @@ func c05Run(in0 interface{}) Result {
 		return !(h.U || h.F >= mf) && !(h.M > 0 && h.C >= h.M)
 	}
 	switch in.Kind {
+	case "retryt":
+		return c05RunTimed(in)
+	case "rrseq":
+		rr := &proxy.RoundRobin{}
+		setRobin(rr, in.Robin)
+		var pool proxy.HostPool
+		var av []string
+		for i, h := range in.Pool {
+			uh := &proxy.UpstreamHost{Name: fmt.Sprintf("h%d", i)}
+			if h.U {
+				uh.Unhealthy = 1
+			}
+			pool = append(pool, uh)
+			av = append(av, cBool(!h.U))
+		}
+		req := httptest.NewRequest("GET", "http://example.test/", nil)
+		var obs []int
+		var terms []string
+		for k := 0; k < in.M; k++ {
+			got := rr.Select(pool, req)
+			idx := -1
+			for i, h := range pool {
+				if h == got {
+					idx = i
+				}
+			}
+			obs = append(obs, idx)
+			terms = append(terms, cOptNat(idx))
+		}
+		n := uint64(len(in.Pool))
+		wrap := uint64(in.Robin)+uint64(in.M)*n >= 1<<32
+		sig := "rrseq:nowrap"
+		if wrap && n > 0 && (1<<32)%n != 0 {
+			sig = "rrseq:wrap:size-not-dividing-2^32"
+		} else if wrap {
+			sig = "rrseq:wrap:size-dividing-2^32"
+		}
+		return Result{Term: cApp("CRRSeq", cN(uint64(in.Robin)), cList(av), cList(terms)), Obs: obs, Sig: sig, Nontrivial: wrap, Class: sig}
 	case "policy":
 		pol, pterm, req := c05Pol(in)
 		var pool proxy.HostPool
@@ -226,7 +290,9 @@ func c05Run(in0 interface{}) Result {
 				hosts[i].Unhealthy = 1
 			}
 		}
-		p := proxy.Proxy{Next: handlerFunc(func(w http.ResponseWriter, r *http.Request) (int, error) { return 404, nil }), Upstreams: ups}
+		var abort int32
+		p := proxy.Proxy{Next: handlerFunc(func(w http.ResponseWriter, r *http.Request) (int, error) { return 404, nil }),
+			Upstreams: []proxy.Upstream{&c05AbortUp{Upstream: ups[0], abort: &abort}}}
 		var rd io.Reader = bytes.NewReader(body)
 		if in.Chunked {
 			rd = struct{ io.Reader }{rd} // hides the length: ContentLength = -1
@@ -237,7 +303,31 @@ func c05Run(in0 interface{}) Result {
 		}
 		req.RemoteAddr = "192.0.2.7:4711"
 		rec := httptest.NewRecorder()
-		status, _ := p.ServeHTTP(rec, req)
+		// try_duration is 150ms: a request that has not returned after 5 s never will
+		status, hung := -1, false
+		done := make(chan struct{})
+		go func() {
+			defer close(done)
+			defer func() {
+				if x := recover(); x != nil {
+					if _, ok := x.(c05Abort); !ok {
+						panic(x)
+					}
+					hung = true
+				}
+			}()
+			status, _ = p.ServeHTTP(rec, req)
+		}()
+		select {
+		case <-done:
+		case <-time.After(5 * time.Second):
+			atomic.StoreInt32(&abort, 1)
+			<-done
+		}
+		direct := ""
+		if hung {
+			direct = "Proxy.ServeHTTP did not return within 5s (try_duration 150ms): the retry loop does not end"
+		}
 		final := -1
 		if status == 0 && rec.Code == 200 {
 			fmt.Sscan(rec.Header().Get("X-Backend"), &final)
@@ -269,7 +359,7 @@ func c05Run(in0 interface{}) Result {
 		}
 		return Result{Term: cApp("CRetry", pterm, bs(in.Base), bs(in.Failing), cNatList(tr), cOptNat(final), cBool(complete)),
 			Obs: map[string]interface{}{"trace": tr, "final": final, "status": status, "code": rec.Code, "bodies_complete": complete},
-			Sig: fmt.Sprintf("retry:%s:chunked=%v", in.Policy, in.Chunked), Nontrivial: nfail > 0, Class: fmt.Sprintf("retry:%s:fail%d", in.Policy, nfail)}
+			Direct: direct, Sig: fmt.Sprintf("retry:%s:chunked=%v", in.Policy, in.Chunked), Nontrivial: nfail > 0, Class: fmt.Sprintf("retry:%s:fail%d", in.Policy, nfail)}
 	}
 	panic("bad kind")
 }
@@ -361,6 +451,21 @@ func c05Gen(r *Rand, tier string) []interface{} {
 			in.Base[j], in.Failing[j] = true, false
 		}
 		out = append(out, in)
+	}
+	out = append(out, c05GenTimed(r, tier)...)
+	// round robin right below the uint32 wrap (counter set directly), pools of 1..6 hosts
+	for n := 1; n <= 6; n++ {
+		masks := []int{1<<n - 1, 1 << (n - 1), 1, (1<<n - 1) &^ 1}
+		for _, mask := range masks {
+			pool := make([]c05Host, n)
+			for i := range pool {
+				pool[i].U = mask>>i&1 == 0
+			}
+			for d := 0; d <= 2*n; d += 1 + n/3 {
+				out = append(out, &c05In{Kind: "rrseq", Pool: pool, Robin: uint32(1<<32 - 1 - d), M: 2 * n})
+			}
+			out = append(out, &c05In{Kind: "rrseq", Pool: pool, Robin: uint32(r.Intn(1 << 30)), M: 3 * n})
+		}
 	}
 	return out
 }
